@@ -2,6 +2,7 @@
 #include <cppcms/util.h>
 #include <cppcms/base64.h>
 #include <cppcms/filters.h>
+#include <cppcms/steal_buf.h>
 #include <booster/locale/format.h>
 #include <cppcms/form.h>
 #include <streambuf>
@@ -43,6 +44,15 @@ static pieces cut(std::string const &s,std::string const &cuts)   // cuts: comma
 	return p;
 }
 
+// the filter buffers of src/filters.cpp are in an anonymous namespace; the same class template with the same convert,
+// to observe the return value of release()
+struct own_escape_buf : public cppcms::util::filterbuf<own_escape_buf,128> {
+	int convert(char const *b,char const *e,std::streambuf *out) { if(!out) return -1; return cppcms::util::escape(b,e,*out); }
+};
+struct own_urlencode_buf : public cppcms::util::filterbuf<own_urlencode_buf,128> {
+	int convert(char const *b,char const *e,std::streambuf *out) { if(!out) return -1; return cppcms::util::urlencode(b,e,*out); }
+};
+
 // ---- form widget rendering: render a widget with `val` in the slot `kind`, return the rendered HTML
 static std::string render_widget(std::string const &kind,std::string const &val,int mode)
 {
@@ -55,6 +65,7 @@ static std::string render_widget(std::string const &kind,std::string const &val,
 	else if(kind=="textarea_value") { textarea w; w.name("n"); w.value(val); w.render(ctx); }
 	else if(kind=="hidden_value") { hidden w; w.name("n"); w.value(val); w.render(ctx); }
 	else if(kind=="message") { text w; w.name("n"); w.message(val); w.render(ctx); }
+	else if(kind=="message_label") { text w; w.name("n"); w.id("i"); w.message(val); w.render(ctx); }
 	else if(kind=="help") { text w; w.name("n"); w.help(val); w.render(ctx); }
 	else if(kind=="error_message") { text w; w.name("n"); w.error_message(val); w.valid(false); w.render(ctx); }
 	else if(kind=="checkbox_ident") { checkbox w; w.name("n"); w.identification(val); w.render(ctx); }
@@ -97,6 +108,12 @@ int main()
 			int rc=cppcms::util::escape(s.data(),s.data()+s.size(),b);
 			out<<"escs "<<hex(b.data)<<" "<<(rc==0?1:0);
 		}
+		else if(v.size()==3 && v[0]=="uencs") {
+			std::string s=unhex(v[2]);
+			bounded_buf b(atoi(v[1].c_str()));
+			int rc=cppcms::util::urlencode(s.data(),s.data()+s.size(),b);
+			out<<"uencs "<<hex(b.data)<<" "<<(rc==0?1:0);
+		}
 		else if(v.size()==2 && v[0]=="uenc") {
 			std::string s=unhex(v[1]);
 			std::string r1=cppcms::util::urlencode(s);
@@ -112,7 +129,10 @@ int main()
 			std::string s=unhex(v[1]);
 			std::string r1=cppcms::util::urldecode(s);
 			std::string r2=cppcms::util::urldecode(s.data(),s.data()+s.size());
-			if(r1!=r2) out<<"udec PATHS-DIFFER"; else out<<"udec "<<hex(r1);
+			// the same range with hex digits directly behind its end: a decoder that looks past `end` decodes differently
+			std::string s3=s+"4F";
+			std::string r3=cppcms::util::urldecode(s3.data(),s3.data()+s.size());
+			if(r1!=r2 || r1!=r3) out<<"udec PATHS-DIFFER "<<hex(r1)<<" "<<hex(r2)<<" "<<hex(r3); else out<<"udec "<<hex(r1);
 		}
 		else if(v.size()==2 && v[0]=="benc") {
 			std::string s=unhex(v[1]);
@@ -135,7 +155,8 @@ int main()
 			std::string s=unhex(v[1]);
 			std::string r="stale-previous-content";
 			bool ok=cppcms::b64url::decode(s,r);
-			if(!ok) out<<"bdec invalid"; else out<<"bdec "<<hex(r);
+			// c=1: the accepted string is the (canonical) encoding of what it decodes to
+			if(!ok) out<<"bdec invalid"; else out<<"bdec "<<hex(r)<<" c="<<(cppcms::b64url::encode(r)==s ? 1 : 0);
 		}
 		else if(v.size()==2 && v[0]=="bdecp") {
 			std::string s=unhex(v[1]);
@@ -159,6 +180,39 @@ int main()
 			if(o1.str()!=b2.data) out<<"pcs PATHS-DIFFER "<<hex(o1.str())<<" "<<hex(b2.data);
 			else out<<"pcs "<<hex(o1.str());
 		}
+		else if(v.size()==5 && v[0]=="pcsf") {
+			// the same into a sink that accepts `room` bytes and then fails: what reached the sink, st = state of the stream
+			// after the filter, rel = what release() of the filter buffer reported (observed on the same class template with the same convert)
+			std::string s=unhex(v[4]); pieces p=cut(s,v[3]); size_t room=atoi(v[2].c_str());
+			bounded_buf b(room); std::ostream o(&b);
+			bounded_buf b2(room); std::ostream o2(&b2); int rel=0;
+			if(v[1]=="esc") { o<<cppcms::filters::escape(p); own_escape_buf fb; fb.steal(o2); o2<<p; rel=fb.release(); }
+			else if(v[1]=="uenc") { o<<cppcms::filters::urlencode(p); own_urlencode_buf fb; fb.steal(o2); o2<<p; rel=fb.release(); }
+			else { o<<cppcms::filters::base64_urlencode(p); o2<<cppcms::filters::base64_urlencode(p); rel=o2.fail()?-1:0; }
+			if(b.data!=b2.data) out<<"pcsf PATHS-DIFFER "<<hex(b.data)<<" "<<hex(b2.data);
+			else out<<"pcsf "<<hex(b.data)<<" st="<<(o.fail()?0:1)<<" rel="<<(rel==0?1:0);
+		}
+		else if(v.size()==3 && v[0]=="pcsb") {
+			// a filter applied to a stream that has already failed (plain writes to such a stream are dropped)
+			std::string s=unhex(v[2]);
+			std::ostringstream o; o.setstate(std::ios_base::badbit);
+			if(v[1]=="esc") o<<cppcms::filters::escape(s); else if(v[1]=="uenc") o<<cppcms::filters::urlencode(s); else o<<cppcms::filters::base64_urlencode(s);
+			out<<"pcsb "<<hex(o.str())<<" st="<<(o.fail()?0:1);
+		}
+		else if(v.size()==3 && v[0]=="strf") {
+			// the std::ostream overloads themselves on a stream that has already failed: nothing may be written, the state stays
+			std::string s=unhex(v[2]); unsigned char const *ub=reinterpret_cast<unsigned char const*>(s.data());
+			std::ostringstream o; o.setstate(std::ios_base::badbit);
+			if(v[1]=="esc") cppcms::util::escape(s.data(),s.data()+s.size(),o);
+			else if(v[1]=="uenc") cppcms::util::urlencode(s.data(),s.data()+s.size(),o);
+			else cppcms::b64url::encode(ub,ub+s.size(),o);
+			out<<"strf "<<hex(o.str())<<" st="<<(o.fail()?0:1);
+		}
+		else if(v.size()==4 && v[0]=="formfull") {
+			// the complete HTML of the widget (compared with the rendering skeleton of the model)
+			// and the same widget with a harmless placeholder as value (reference structure for the oracle)
+			out<<"formfull "<<hex(render_widget(v[1],unhex(v[3]),atoi(v[2].c_str())))<<" "<<hex(render_widget(v[1],"ZqPLACEHOLDERqZ",atoi(v[2].c_str())));
+		}
 		else if(v.size()==4 && v[0]=="form") {
 			// the widget rendered with the payload must equal the widget rendered with a harmless placeholder, with the
 			// placeholder replaced by one byte string (printed: what stands in the value's place)
@@ -171,7 +225,16 @@ int main()
 				std::string pre=a.substr(0,pos), suf=a.substr(pos+ph.size());
 				if(b.size()<pre.size()+suf.size() || b.compare(0,pre.size(),pre)!=0 || b.compare(b.size()-suf.size(),suf.size(),suf)!=0)
 					out<<"form STRUCTURE-DIFFERS "<<hex(b);
-				else out<<"form "<<hex(b.substr(pre.size(),b.size()-pre.size()-suf.size()));
+				else {
+					// context of the slot: A = inside a tag, as an attribute value written ="..."; E = element text (outside any tag)
+					char const *cx="?";
+					if(pre.size()>=2 && pre.compare(pre.size()-2,2,"=\"")==0 && !suf.empty() && suf[0]=='"') cx="A";
+					else {	// outside any tag: the last angle bracket before the slot is a >
+						size_t gt=pre.rfind('>'), lt=pre.rfind('<');
+						if(gt!=std::string::npos && (lt==std::string::npos || lt<gt)) cx="E";
+					}
+					out<<"form "<<hex(b.substr(pre.size(),b.size()-pre.size()-suf.size()))<<" "<<cx;
+				}
 			}
 		}
 		else if(v.size()==2 && v[0]=="esz") out<<"esz "<<cppcms::b64url::encoded_size(strtoull(v[1].c_str(),0,10));
